@@ -26,12 +26,14 @@ def run(tier):
             chk.model_violation(cfg, res)
     gens = [("MC_C05", "MC_C05_gen.cfg", {"MaxHist": 2, "MaxIters": 2}, None, None),
             ("MC_C05", "MC_C05_gen.cfg", {"MaxHist": 12, "MaxIters": 3}, 1500, 14),
-            ("MC_C05", "MC_C05_gen.cfg", {"MaxHist": 40, "MaxIters": 3}, 300, 42)]
+            ("MC_C05", "MC_C05_gen.cfg", {"MaxHist": 40, "MaxIters": 3}, 300, 42),
+            ("MC_C05", "MC_C05_gen.cfg", {"MaxHist": 5, "MaxIters": 1, "Shapes2": "c_Long"}, 48, 7)]
     if tier == "thorough":
         gens = [("MC_C05", "MC_C05_gen.cfg", {"MaxHist": 3, "MaxIters": 2}, None, None),
                 ("MC_C05", "MC_C05_gen.cfg", {"MaxHist": 12, "MaxIters": 3}, 20000, 14),
                 ("MC_C05", "MC_C05_gen.cfg", {"MaxHist": 30, "MaxIters": 3, "Dense": "TRUE"}, 5000, 32),
-                ("MC_C05", "MC_C05_gen.cfg", {"MaxHist": 80, "MaxIters": 3}, 2000, 82)]
+                ("MC_C05", "MC_C05_gen.cfg", {"MaxHist": 80, "MaxIters": 3}, 2000, 82),
+                ("MC_C05", "MC_C05_gen.cfg", {"MaxHist": 10, "MaxIters": 2, "Shapes2": "c_Long"}, 640, 12)]
     for module, cfg, ov, sim, depth in gens:
         run_config(chk, module, cfg, ov,
                    lambda rec, i: {"rec": rec, "seed": chk.seed, "variant": i % 7},
